@@ -161,7 +161,7 @@ def _nonleaf_subterms(t):
     return {json.dumps(x) for x in richgen.subterms(t) if x[0] not in bp.LEAVES}
 
 
-def execute(plan, tape):
+def _execute(plan, tape):
     from pysmt.environment import reset_env, Environment
     from pysmt.fnode import FNode as FNode_
     symbols = plan["symbols"]
@@ -305,6 +305,7 @@ def execute(plan, tape):
             aged_build = None
         except Exception as ex:
             f, aged_build = None, type(ex).__name__
+        aged = ("exc", "not-built", None)
         if f is not None:
             aged = calls.outcome(env, spec, f, term, user)
         # ---- sequential specification: the same call alone in a brand-new environment
@@ -486,3 +487,24 @@ def _show(o):
     raw = o[2]
     s = str(raw)
     return s[:300]
+
+
+
+def execute(plan, tape):
+    """a well-formed construction or query of the history that raises inside the library is a
+    violation (the harness itself never expects one there), not a harness error"""
+    import sys
+    import traceback
+    try:
+        return _execute(plan, tape)
+    except Violation:
+        raise
+    except Exception as ex:
+        tb = traceback.extract_tb(sys.exc_info()[2])
+        if tb and "/pysmt/" in tb[-1].filename and "/verif/" not in tb[-1].filename:
+            caller = [fr for fr in tb if "/verif/" in fr.filename]
+            raise Violation("C14:valid-call-raised:%s" % type(ex).__name__,
+                            "a valid call of the history raised %s: %s (at %s:%s, called from %s:%d)" %
+                            (type(ex).__name__, str(ex)[:150], tb[-1].filename.split("/")[-1], tb[-1].name,
+                             caller[-1].filename.split("/")[-1] if caller else "?", caller[-1].lineno if caller else 0))
+        raise
